@@ -64,6 +64,21 @@ CHECKS = {
     technique="TLA+ pipeline machine of persistent_entropy (listify, infinity handling, lengths, rejection, Shannon, normalisation) model-checked by TLC against a declarative outcome for every flag combination; spec->code replay of all enumerated (input, flags) cases; recorded calls validated by TLC with exact dyadic-family values (ln 2 table) in fixed point",
     text="TLC checks OutcomeAsStated and CoefBounds for every combination of keep_inf / val_inf / normalize and every list of <=2 (thorough 3) diagrams from a pool containing dyadic families, equal bars, an infinite bar, a zero-length and a negative bar; all enumerated cases are replayed through the real function. Seeded Kraft-complete length multisets (entropy = ln2 * sum k_i 2^-k_i exactly), equal bars (= ln n), general barcodes, each with reordered / translated / rescaled copies in the same call, infinite bars under every flag choice, non-positive bars (must raise), array vs list input and a second call on the same arrays are validated by TLC to 1e-12: exact values, 0 <= E <= ln n, normalised in [0,1], one value per diagram in order, invariances, error outcomes.",
     note="Absolute values only on dyadic and equal-length families (elsewhere bounds and invariance laws). ln 2 and ln n (n<=64) come from the generated Tables.tla (60-digit decimal), cross-checked by TLC ASSUMEs. Normalised entropy of a single bar (nan) is outside the property's domain."),
+ "C07": dict(
+    cat="model_checking", ref="DESIGN.md 5/C07",
+    technique="TLA+ session machine (MetricLaws.tla): a table of observed distances between diagrams whose relations (reordering, added diagonal points, diagonal translation, rescaling, emptiness) the specification discovers itself, with every applicable metric/invariance law checked by TLC in fixed point; laws also model-checked on the definitional operator",
+    text="Sessions of 14 related diagrams with 30..120 (thorough 50..400) points each -- random diagrams, a reordering, a copy with extra diagonal points, diagonal translates (also into negative coordinates), rescalings, chains sharing bit-identical points, a perturbed copy, the empty diagram -- have all ordered pairs evaluated by persim.bottleneck / persim.wasserstein (exact and inexact embeddings, 3 hash seeds); TLC checks on the whole table: zero on reorderings, symmetry, non-negativity, triangle inequality over all triples, invariance under diagonal points and diagonal translation, linear scaling, value against the empty diagram (max persistence/2, total persistence/sqrt 2), bottleneck <= Wasserstein. The same laws hold as invariants of BottleneckDef in Bottleneck.tla (LawsOnDefinition).",
+    note="Relations, not optimality, at these sizes (optimality at size is certified in C01/C02). Tolerance 1e-9 relative + 1e-12 absolute in tick units."),
+ "C14": dict(
+    cat="exploration", ref="DESIGN.md 5/C14",
+    technique="TLA+ law table (MetricLaws.tla) evaluated by TLC on recorded sessions plus an exact dyadic anchor of the multi-scale kernel (sigma = 1/(8 ln 2) on lattice diagrams) computed in fixed point inside the specification",
+    text="On lattice diagrams with sigma = 1/(8 ln 2) the kernel is a finite sum of powers of two; TLC requires heat^2 * pi / ln 2 = K2(F,F) + K2(G,G) - 2 K2(F,G), which pins the kernel shape, the mirrored point and the 1/(8 pi sigma) normalisation, under 7 embeddings through the scaling law. For sigma in {0.05..5} and sessions of related diagrams (reorderings, extra diagonal points, translates, perturbed copies, 3..14, thorough 40 points) TLC checks: never NaN, finite, >= 0, zero between reorderings, symmetry, triangle over all triples, diagonal points ignored, translation invariance, heat <= W1/(4 sigma sqrt pi) with both sides observed.",
+    note="No state space to explore (a numeric identity): exploration level. Absolute values only on the anchor family. 'Zero' means <= 1e-6 n / sqrt(8 pi sigma) (square root of cancellation noise). The NaN defect found is repaired in /repo and recorded as fixed."),
+ "C15": dict(
+    cat="model_checking", ref="DESIGN.md 5/C15",
+    technique="TLC model-checks the design lemma (sorted matching attains the 1-D transport minimum over all bijections); recorded sessions validated by TLC with an exact rational value for M in {1,2} directions and the property's laws for all M",
+    text="SortedIsOptimal, CommonValueIrrelevant and CostSymmetric hold for all pairs of sequences of length <=4 (thorough 5) over 0..3. For M in {1,2} the directions are (0,1) and (-1,0): TLC computes SW exactly (each diagram augmented with the diagonal projections of the other) and requires agreement to 1e-6, on diagrams with coordinates of either sign and 7 embeddings. For M in {1,2,3,5,10,50,60}: finite, >= 0, zero on reorderings, symmetry, triangle, diagonal points ignored, diagonal translation also into negative coordinates, linear scaling, empty diagrams, SW <= 2 W1.",
+    note="The code keeps direction vectors in float32, so equalities are granted 1e-6 of the largest coordinate magnitude times the number of points (stated in evidence). Absolute values only for M in {1,2}. The unsigned diagonal projection defect is repaired in /repo and recorded as fixed."),
 }
 
 NOT_APPLICABLE_REASON = "check under construction in this round; see DESIGN.md section 5"
